@@ -48,6 +48,8 @@ class E3Config:
         b.update({'backend': self.backend, 'max_workers': self.max_workers, 'cpu_count': self.cpu_count})
         if self.die_exit0:
             b['die_exit0'] = True
+        if self.monitor:
+            b['displays'] = 'on'
         return b
 
     @property
@@ -148,7 +150,7 @@ def run_once_e3(cfg: E3Config, chooser: Chooser, *, world_hook=None, around_run=
     orig_rol = lt_process.run_or_load_task
     try:
         precache(storage, spec, built, base.precached, ctx)
-        U.WORLD.reset(epoch=1, faults=[spec.labels[i] for i in base.faults],
+        U.WORLD.reset(epoch=1, faults=[spec.labels[i] for i in base.faults], fault_exc=base.fault_exc,
                       emit={spec.labels[i]: pat for i, pat in base.emit})
         with Patched(world):
             inner = lt_process.ForkRunnerBackend() if cfg.backend == 'fork' else lt_process.SpawnRunnerBackend()
@@ -159,9 +161,12 @@ def run_once_e3(cfg: E3Config, chooser: Chooser, *, world_hook=None, around_run=
             lab = labtech.Lab(storage=storage, runner_backend=backend, continue_on_failure=base.cof,
                               notebook=False, context=ctx, max_workers=cfg.max_workers)
             import contextlib
+            import io
+            # with the displays on, tqdm and the task monitor write to stderr: keep the console quiet
+            quiet = contextlib.redirect_stderr(io.StringIO()) if cfg.monitor else contextlib.nullcontext()
             try:
-                with (around_run(world) if around_run is not None else contextlib.nullcontext()):
-                    res = lab.run_tasks(req, bust_cache=base.bust_cache, disable_progress=True, disable_top=not cfg.monitor)
+                with quiet, (around_run(world) if around_run is not None else contextlib.nullcontext()):
+                    res = lab.run_tasks(req, bust_cache=base.bust_cache, disable_progress=not cfg.monitor, disable_top=not cfg.monitor)
                 outcome = ('return', res)
             except (Spin, Livelock) as e:
                 outcome = ('spin', e)
